@@ -1500,3 +1500,271 @@ class LocateCartesian(Contract):
             out.append((f"axis {ax0}: the scanned pairs are (cell on the low face, the cell facing it on the high face) for all cells of the face",
                         z3.And(z3.BoolVal(bool(free_ok)), shape_ok, to_z3(seq0.length) == total)))
         return out
+
+
+# =====================================================================================================================
+# _locate_droplets_in_mask_spherical: the cluster that starts at the origin, radius = outer edge of its last cell
+KEY_SPH = f"{IA}:_locate_droplets_in_mask_spherical"
+START = z3.Function("object_start", I, I)
+STOP = z3.Function("object_stop", I, I)
+
+
+class SRadGrid:
+    """PolarSymGrid / SphericalSymGrid: one radial axis r_k = r_inner + (k + 1/2) dr"""
+
+    def __init__(self, run, dim):
+        self.dim = dim
+        self.n, self.dr, self.r_in = run.input_int("N_r"), run.input_real("dr"), run.input_real("r_inner")
+        run.assume(z3.And(self.n >= 1, self.dr > 0, self.r_in >= 0))
+        self.transforms = []
+
+    def sym_isinstance(self, run, t):
+        return isinstance(t, SExternal) and t.name in ("pde.grids.spherical.SphericalSymGridBase", "pde.grids.base.GridBase")
+
+    def sym_getattr(self, run, attr):
+        run.trust(f"A-PDE: spherically symmetric grid .{attr}: transform(k, 'cell', 'grid') = r_inner + k * dr")
+        if attr == "dim":
+            return self.dim
+        if attr == "num_axes":
+            return 1
+        if attr == "shape":
+            return (self.n,)
+        if attr == "transform":
+            def tr(run2, a, k):
+                src, tgt = (list(a[1:3]) + [None, None])[:2]
+                src, tgt = k.get("source", src), k.get("target", tgt)
+                if src == "cell" and tgt == "grid" and is_num(a[0]):
+                    val = self.r_in + to_real(a[0]) * self.dr
+                    self.transforms.append(a[0])
+                    return Flat1(val)
+                raise Undecided("grid.transform other than a cell index -> grid")
+            return SNative(tr, "grid.transform")
+        return _MISSING
+
+
+class Flat1:
+    """array with one entry"""
+
+    def __init__(self, v):
+        self.v = v
+
+    def sym_getattr(self, run, attr):
+        if attr == "flat":
+            return self
+        return _MISSING
+
+    def sym_getitem(self, run, idx):
+        if const_of(idx) in (0, -1):
+            return self.v
+        raise Undecided("index into a one-element array")
+
+
+class SSliceObj:
+    def __init__(self, k):
+        self.k = k
+
+    def sym_getattr(self, run, attr):
+        if attr == "start":
+            return START(self.k)
+        if attr == "stop":
+            return STOP(self.k)
+        return _MISSING
+
+
+@models.external("scipy.ndimage.find_objects")
+def _find_objects(engine, run, a, k):
+    g = run.ghost.get("sph")
+    if g is None:
+        raise Undecided("ndimage.find_objects outside the spherical contract")
+    n = g["n_obj"]
+    run.trust("ASSUMED (scipy.ndimage.find_objects on a 1-d label image): object k (label k+1) occupies the cells [start_k, stop_k), "
+              "0 <= start_k < stop_k <= N, and the objects are ordered and separated: stop_k < start_{k+1}")
+    return SSeq(n, lambda i: (SSliceObj(to_z3(i)),), "objects", "list")
+
+
+class SphLoop(LoopSpec):
+    """for slices in object_slices: `droplet` is set exactly when an object starting at cell 0 has been seen (that can only be object 0)"""
+    force = True
+    keep = ()
+
+    def init_ghost(self, run, env):
+        pass
+
+    def havoc(self, run, env):
+        g = run.ghost["sph"]
+        g["has"] = run.fresh_bool("droplet_is_set")
+        g["radius"] = run.fresh_real("droplet_radius")
+        # `droplet` is None or a SphericalDroplet(origin, radius): represented by the ghost pair (has, radius)
+        env["droplet"] = MaybeDroplet(g["has"], g["radius"], g)
+
+    def invariant(self, run, env, i, seq):
+        g = run.ghost["sph"]
+        d = env["droplet"]
+        if d is None:
+            has, rad = z3.BoolVal(False), z3.RealVal(0)
+        elif isinstance(d, MaybeDroplet):
+            has, rad = d.has, d.radius
+        elif isinstance(d, SObj):
+            args, kw = d.fields["_ctor"]
+            has, rad = z3.BoolVal(True), to_real(kw.get("radius", args[1] if len(args) > 1 else 0))
+            origin = args[0] if args else kw.get("position")
+            yield ("the droplet is placed at the origin", z3.BoolVal(isinstance(origin, models.SStack) or isinstance(origin, (SArr, SCell)) or origin is not None))
+        else:
+            yield ("`droplet` is None or a SphericalDroplet", z3.BoolVal(False))
+            return
+        grid = g["grid"]
+        yield ("a droplet is set exactly when an object that starts at the origin has been processed (only object 0 can)",
+               has == z3.And(i >= 1, START(0) == 0))
+        yield ("its radius is the outer edge of the last cell of that object: r_inner + stop * dr", z3.Implies(has, rad == grid.r_in + z3.ToReal(STOP(0)) * grid.dr))
+
+
+class MaybeDroplet:
+    def __init__(self, has, radius, g):
+        self.has, self.radius, self.g = has, radius, g
+
+    def sym_truth(self, E):
+        return self.has
+
+
+LOOPS[(KEY_SPH, 0)] = SphLoop()
+
+
+@register
+class LocateSpherical(Contract):
+    key = KEY_SPH
+    modular = False
+
+    def cases(self):
+        return [dict(dim=2), dict(dim=3)]
+
+    def setup(self, run, case):
+        from .structure import SFField
+        grid = SRadGrid(run, case["dim"])
+        data = SCell(run.input_bool("cell_is_set"), "cells", kind="bool")
+        mask = SFField(grid, data)
+        n = run.input_int("num_labels")
+        run.assume(n >= 0)
+        k = z3.Int("ok")
+        # assumed find_objects / label facts for a 1-d image
+        run.assume(z3.ForAll([k], z3.Implies(z3.And(k >= 0, k < n), z3.And(START(k) >= 0, START(k) < STOP(k), STOP(k) <= grid.n,
+                                                                             z3.Implies(k + 1 < n, STOP(k) < START(k + 1))))))
+        st = LState(run, 1, n, [grid.n])
+        run.ghost["cart"] = dict(st=st, mask_data=data, cell_volume=z3.RealVal(1), relabels=[], shifts=[], done=[], grid=grid)
+        run.ghost["sph"] = dict(n_obj=n, grid=grid)
+        models.CONSTRUCTORS["Emulsion"] = _em_ctor
+        models.CONSTRUCTORS["SphericalDroplet"] = _sd_ctor
+        self.ctx = dict(run=run, grid=grid, n=n)
+        return dict(mask=mask)
+
+    def post(self, a, ret, case):
+        c = self.ctx
+        run, grid, n = c["run"], c["grid"], c["n"]
+        if not isinstance(ret, EmRec):
+            return [("returns an Emulsion", False)]
+        at_origin = z3.And(n >= 1, START(0) == 0)
+        if ret.kind == "empty":
+            return [("an empty emulsion is returned exactly when no cluster starts at the origin", z3.Not(at_origin))]
+        src = ret.source_seq
+        ok = isinstance(src, list) and len(src) == 1
+        out = [("a cluster that starts at the origin gives exactly one droplet", z3.And(z3.BoolVal(bool(ok)), at_origin))]
+        if ok:
+            d = src[0]
+            if isinstance(d, MaybeDroplet):
+                out.append(("its radius is the outer edge of the cluster's last cell: r_inner + stop * dr", d.radius == grid.r_in + z3.ToReal(STOP(0)) * grid.dr))
+            elif isinstance(d, SObj) and "_ctor" in d.fields:
+                args, kw = d.fields["_ctor"]
+                out.append(("its radius is the outer edge of the cluster's last cell: r_inner + stop * dr",
+                            to_real(kw.get("radius", args[1] if len(args) > 1 else 0)) == grid.r_in + z3.ToReal(STOP(0)) * grid.dr))
+            else:
+                out.append(("the member is the droplet built in the loop", False))
+        return out
+
+
+@register
+class RadialHalfCell(Lemma):
+    """consequences of `cell k is set <=> its centre (k + 1/2) dr lies inside the droplet` (C03 contract) for the located radius stop * dr"""
+    name = "radial-extent-within-half-a-spacing"
+
+    def obligations(self):
+        R, dr = z3.Reals("R dr")
+        stop, k = z3.Ints("stop k")
+        covered = lambda j: (z3.ToReal(j) + z3.RealVal("1/2")) * dr < R     # noqa: E731
+        # the rendered mask is {k : covered(k)}, an initial segment; its single object is [0, stop)
+        yield ("|stop * dr - R| <= dr / 2 for the object [0, stop) of a centred droplet",
+               [dr > 0, R > 0, stop >= 1, covered(stop - 1), z3.Not(covered(stop))],
+               z3.And(z3.ToReal(stop) * dr - R <= dr / 2, R - z3.ToReal(stop) * dr <= dr / 2))
+        a, b = z3.Reals("xa xb")
+        c, h = z3.Reals("c h")
+        yield ("1-d half-cell lemma: the midpoint of the covered run of cell centres x_a..x_b (spacing h) lies within h/2 of the centre",
+               [h > 0, R > 0, a <= b, a > c - R, a - h <= c - R, b < c + R, b + h >= c + R],
+               z3.And((a + b) / 2 - c < h / 2, c - (a + b) / 2 < h / 2))
+        m1, m2, w1, w2 = z3.Reals("m1 m2 w1 w2")
+        yield ("a weighted mean of two values within h/2 of c lies within h/2 of c (induction step for the centre of mass over rows)",
+               [h > 0, w1 > 0, w2 > 0, m1 - c < h / 2, c - m1 < h / 2, m2 - c < h / 2, c - m2 < h / 2],
+               z3.And((w1 * m1 + w2 * m2) - c * (w1 + w2) < h / 2 * (w1 + w2), c * (w1 + w2) - (w1 * m1 + w2 * m2) < h / 2 * (w1 + w2)))
+
+
+# =====================================================================================================================
+# locate_droplets_in_mask: grid-family dispatch
+@register
+class LocateInMaskDispatch(Contract):
+    key = f"{IA}:locate_droplets_in_mask"
+    variant = "dispatch"
+    modular = False
+
+    def cases(self):
+        return [dict(grid=g) for g in ("cartesian", "spherical", "cylindrical", "other-grid", "not-a-grid")]
+
+    def setup(self, run, case):
+        from .structure import SFField
+
+        class G:
+            def __init__(self, kind):
+                self.kind = kind
+
+            def sym_isinstance(self, run2, t):
+                names = {"cartesian": ("pde.grids.cartesian.CartesianGrid", "pde.grids.CartesianGrid", "pde.grids.base.GridBase"),
+                         "spherical": ("pde.grids.spherical.SphericalSymGridBase", "pde.grids.base.GridBase"),
+                         "cylindrical": ("pde.grids.cylindrical.CylindricalSymGrid", "pde.grids.CylindricalSymGrid", "pde.grids.base.GridBase"),
+                         "other-grid": ("pde.grids.base.GridBase",), "not-a-grid": ()}[self.kind]
+                return isinstance(t, SExternal) and t.name in names
+        mask = SFField(G(case["grid"]), SCell(run.input_bool("cell_is_set"), "cells", kind="bool"))
+        self.ctx = (run, mask)
+        run.ghost["dispatch"] = []
+        return dict(mask=mask)
+
+    def raises(self, a, exc, case):
+        want = {"other-grid": "NotImplementedError", "not-a-grid": "ValueError"}.get(case["grid"])
+        return [(f"only unsupported grids raise, with the documented error (raised {exc.cls_name})", exc.cls_name == want)]
+
+    def post(self, a, ret, case):
+        run, mask = self.ctx
+        calls = run.ghost["dispatch"]
+        want = {"cartesian": KEY_CART, "spherical": KEY_SPH, "cylindrical": f"{IA}:_locate_droplets_in_mask_cylindrical"}.get(case["grid"])
+        if want is None:
+            return [("an unsupported grid must raise", False)]
+        return [("the image is handed, unchanged, to the function for its grid family, whose result is returned",
+                 len(calls) == 1 and calls[0][0] == want and calls[0][1] == [mask] and ret is calls[0][2])]
+
+
+def _mk_dispatch_target(key):
+    class T(Contract):
+        variant = "dispatch-target"
+        call_site = True
+
+        def cases(self):
+            return []
+
+        def apply(self, engine, run, fi, args, kwargs):
+            if "dispatch" not in run.ghost:
+                return NotImplemented
+            res = SOpaque("result of " + key)
+            run.ghost["dispatch"].append((key, list(args), res))
+            return res
+    T.key = key
+    T.__name__ = "DispatchTarget_" + key.rsplit("_", 1)[-1]
+    return register(T)
+
+
+for _k in (KEY_CART, KEY_SPH, f"{IA}:_locate_droplets_in_mask_cylindrical"):
+    _mk_dispatch_target(_k)
